@@ -45,6 +45,10 @@ func propC07(c *Ctx) propInfo {
 		c.forwardLinks(f, env)
 	}
 	c.floor("E1.P6-forward-refs", 1)
+	c.parserDepthBound()
+	c.visitMarkers()
+	c.floor("E1.P5-memo", 2)
+	c.floor("E1.P5-depth-compute", 2)
 	c.workBudget()
 	c.cacheOnlyComplete()
 	c.hasherState()
@@ -86,10 +90,17 @@ var excC07 = map[string]excEntry{
 	"boc.NewBitString P4 make []byte len=((_&-8)/8) cap=((_&-8)/8)":              {"bitLen is a constant (CellBits, 264) or the size of an in-memory object at every in-module call on a decode path", nil},
 	"(*boc.Cell).bocReprWithoutRefs P4 make []byte len=((_/8)+2) cap=((_/8)+2)":  {"BitSize() is the written length of an in-memory cell (<= 1023 for parsed cells)", nil},
 	// ---- serializer bookkeeping: indices are positions handed out by orderState.add / counts of a [4]*Cell array
-	"fn:(*boc.bagOfCells).importCell":   {"indices into state.cellList are positions returned by orderState.add or stored in state.cells for a cell already added; not derived from input bytes", nil},
-	"fn:(*boc.bagOfCells).reorderCells": {"indices are loop counters below refsNumber (<= 4, counted over a [4]*Cell array) and positions recorded by importCell", nil},
-	"fn:(*boc.bagOfCells).revisit":      {"cellIndex/refsIndex are positions recorded by importCell; j < refsNumber <= 4", nil},
-	"fn:(*boc.bagOfCells).serializeBoc": {"j < refsNumber <= 4; refByteSize = max(ceil(bits.Len(n)/8),1) is in 1..8", nil},
+	"(*boc.bagOfCells).importCell P2 index *state.cellList[*state.cells[boc.Hasher.HashString()#0]#0]": {"positions in state.cellList are handed out by orderState.add (the index of the element it appends) and recorded in state.cells / refsIndex / rootInfo.index only for cells already added; the list only grows", nil},
+	"(*boc.bagOfCells).importCell P2 index *state.cellList[boc.bagOfCells.importCell()#0]":             {"positions in state.cellList are handed out by orderState.add (the index of the element it appends) and recorded in state.cells / refsIndex / rootInfo.index only for cells already added; the list only grows", nil},
+	"(*boc.bagOfCells).reorderCells P2 index *state.cellList[**roots[_].index]":                        {"positions in state.cellList are handed out by orderState.add (the index of the element it appends) and recorded in state.cells / refsIndex / rootInfo.index only for cells already added; the list only grows", nil},
+	"(*boc.bagOfCells).reorderCells P2 index *state.cellList[**roots[_].index]#2":                      {"positions in state.cellList are handed out by orderState.add (the index of the element it appends) and recorded in state.cells / refsIndex / rootInfo.index only for cells already added; the list only grows", nil},
+	"(*boc.bagOfCells).reorderCells P2 index *state.cellList[*_.refsIndex[φj]]":                        {"positions in state.cellList are handed out by orderState.add (the index of the element it appends) and recorded in state.cells / refsIndex / rootInfo.index only for cells already added; the list only grows; j < refsNumber is proved (derived count-field invariant)", nil},
+	"(*boc.bagOfCells).reorderCells P2 index *state.cellList[*_.refsIndex[φj]]#2":                      {"positions in state.cellList are handed out by orderState.add (the index of the element it appends) and recorded in state.cells / refsIndex / rootInfo.index only for cells already added; the list only grows", nil},
+	"(*boc.bagOfCells).reorderCells P2 index *state.cellList[*_.refsIndex[φj]]#3":                      {"positions in state.cellList are handed out by orderState.add (the index of the element it appends) and recorded in state.cells / refsIndex / rootInfo.index only for cells already added; the list only grows", nil},
+	"(*boc.bagOfCells).reorderCells P2 index *state.cellList[φi]":                                      {"i counts down from len(state.cellList)-1; nothing in the loop shrinks the list (the field is re-loaded each trip, which the prover does not identify)", nil},
+	"(*boc.bagOfCells).revisit P2 index *state.cellList[*_.refsIndex[φj]]":                             {"positions in state.cellList are handed out by orderState.add (the index of the element it appends) and recorded in state.cells / refsIndex / rootInfo.index only for cells already added; the list only grows", nil},
+	"(*boc.bagOfCells).revisit P2 index *state.cellList[cellIndex]":                                    {"positions in state.cellList are handed out by orderState.add (the index of the element it appends) and recorded in state.cells / refsIndex / rootInfo.index only for cells already added; the list only grows; callers pass root.index or a refsIndex entry", nil},
+	"(*boc.bagOfCells).serializeBoc P2 slice &b[(8-math.Max()):]":                                      {"refByteSize = max(ceil(bits.Len(n)/8), 1) lies in 1..8 because bits.Len <= 64 (the /8 and the rounding are checked by the C01 width rule)", nil},
 	// ---- hashing
 	"(*boc.immutableCell).Hash P2 index *ic.hashes[φindex]":                                                      {"newImmutableCell appends one hash per significant level >= offset; index is HashIndex of a sub-mask (pruned cells use index 0)", nil},
 	"(*boc.immutableCell).Depth P2 index *ic.depths[φindex]":                                                     {"same invariant as hashes", nil},
